@@ -26,6 +26,7 @@ TIERS = {
         "echo_share": 0.02,
         "cfg": {"steps": [16, 24, 40], "clients": [1, 2, 3], "fault_free_share": 0.25},
         "batch_cap_s": 600,
+        "minimise_budget_s": 180,
     },
     "thorough": {
         "id": 2,
@@ -34,6 +35,7 @@ TIERS = {
         "echo_share": 0.01,
         "cfg": {"steps": [24, 40, 60, 80], "clients": [1, 2, 3, 4], "fault_free_share": 0.2},
         "batch_cap_s": 3 * 3600,
+        "minimise_budget_s": 480,
     },
 }
 BITMAP_BITS = 1 << 24
@@ -350,14 +352,17 @@ def judge(args, agg, i5, pool, tier, nb, harness_problem):
         return pool.submit({"t": "replay", "scenario": sc, "ops": ops}, "A").result()
 
     os.makedirs(os.path.join(VERIF, "replays"), exist_ok=True)
+    # a change that breaks the property wholesale yields dozens of classes: bound the time
+    # spent shrinking them (the unminimised histories are still written out and replayable)
+    minimise_deadline = time.time() + tier.get("minimise_budget_s", 240)
     for n, (cls, items) in enumerate(new_by_class.items()):
         rc = 1
         res, v, feat = min(items, key=lambda it: len(it[0].get("ops", [])))
         sc, ops, hit = res["scenario"], res["ops"], (v, res)
         minimised_from = len(ops)
         note = "not minimised"
-        if n < MAX_MINIMISE and not args.no_minimise:
-            m = minimise.Minimiser(replay_fn, cls)
+        if n < MAX_MINIMISE and not args.no_minimise and time.time() < minimise_deadline:
+            m = minimise.Minimiser(replay_fn, cls, budget_s=max(10, min(60, minimise_deadline - time.time())))
             out = None
             if v["invariant"] in ("I6", "I7"):
                 # statements about the reference alone: one probe usually suffices
